@@ -204,8 +204,34 @@ pub fn eval_parse(c: &ParseCase, obs: &mut Obs) -> Result<(), String> {
         obs.sample(json!({"kind": c.kind, "content": hex(&c.content.0), "declared_size": size, "pad": c.pad, "expected": want.render()}));
     }
     match t.get(key) {
-        Some(v) if *v == want => Ok(()),
-        other => Err(format!("kind {} content {} declared size {size} (pad {:#x}): expected {}, got {:?}", c.kind, hex(&c.content.0), c.pad, want.render(), other.map(|v| v.render()))),
+        Some(v) if *v == want => {}
+        other => return Err(format!("kind {} content {} declared size {size} (pad {:#x}): expected {}, got {:?}", c.kind, hex(&c.content.0), c.pad, want.render(), other.map(|v| v.render()))),
+    }
+    // the same tag inside a boot information, reached through the typed getter
+    // of the loaded structure and through the tag walk
+    let mut region = vec![0u8; 8];
+    region.extend_from_slice(&img);
+    region.extend_from_slice(&mb2_model::encode::END_TAG);
+    let total = region.len() as u32;
+    put32(&mut region, 0, total);
+    let a = Aligned::new(&region);
+    let t = unsafe { mb2_model::exercise_mbi::exercise_mbi(a.as_ptr(), &MbiOpts { debug: false, max_steps: 16, typed_all: true }) };
+    let gkey = match c.kind {
+        1 => "g.cmdline",
+        2 => "g.boot_loader_name",
+        _ => "g.module",
+    };
+    let gwant = Val::Ext(8, r8(size));
+    if t.get(gkey) != Some(&gwant) {
+        return Err(format!("kind {} content {} declared size {size}: the getter of the loaded boot information gives {:?}, expected the tag {}", c.kind, hex(&c.content.0), t.get(gkey).map(|v| v.render()), gwant.render()));
+    }
+    let want8 = match want {
+        Val::Str(o, n) => Val::Str(o + 8, n),
+        w => w,
+    };
+    match t.get(key) {
+        Some(v) if *v == want8 => Ok(()),
+        other => Err(format!("kind {} content {} declared size {size} (inside a boot information): expected {}, got {:?}", c.kind, hex(&c.content.0), want8.render(), other.map(|v| v.render()))),
     }
 }
 
@@ -241,15 +267,28 @@ fn enumerate_parse(ctx: &Ctx) -> Box<dyn Iterator<Item = ParseCase>> {
 }
 
 fn strategy_parse(_: &Ctx) -> BoxedStrategy<ParseCase> {
+    let raw = proptest::collection::vec(prop_oneof![6 => proptest::sample::select(BYTES.to_vec()), 2 => 0x20u8..0x7f, 1 => any::<u8>()], 0..300);
+    // long valid text of 1..4-byte characters, a terminator, then a tail
+    let valid = (proptest::collection::vec(proptest::sample::select(vec!['a', 'Z', '\u{e9}', '\u{20ac}', '\u{10348}']), 0..160), proptest::collection::vec(any::<u8>(), 0..6)).prop_map(|(chars, tail)| {
+        let mut v: Vec<u8> = chars.into_iter().collect::<String>().into_bytes();
+        v.push(0);
+        v.extend(tail);
+        v
+    });
     (
         proptest::sample::select(KINDS.to_vec()),
-        proptest::collection::vec(prop_oneof![6 => proptest::sample::select(BYTES.to_vec()), 2 => 0x20u8..0x7f, 1 => any::<u8>()], 0..300),
-        any::<u16>(),
+        prop_oneof![2 => raw, 1 => valid],
+        (any::<u16>(), 0u8..4),
         prop_oneof![Just(0u8), Just(0x5Au8)],
         prop_oneof![Just(0u8), Just(0x41u8)],
     )
-        .prop_map(|(kind, content, cut, pad, next0)| {
-            let cut = crate::gen::pick(cut, content.len() + 1);
+        .prop_map(|(kind, content, (cut, cmode), pad, next0)| {
+            // half of the cuts lie at or near the end of the content
+            let cut = match cmode {
+                0 => content.len(),
+                1 => content.len().saturating_sub(cut as usize % 8),
+                _ => crate::gen::pick(cut, content.len() + 1),
+            };
             ParseCase { kind, content: Hex(content), cut, pad, next0 }
         })
         .boxed()
@@ -270,7 +309,7 @@ pub fn subs() -> Vec<Box<dyn Sub>> {
         }),
         Box::new(PropSub::<ParseCase> {
             name: "parse",
-            rule: "string tags laid out by hand: [fixed part][content][padding 0x5A|0x00][next tag starting 0x00|0x41], declared size = fixed part + cut. Enumerated: every byte string over {a, NUL, C3, A9, E2, FF} up to length 5 (thorough 6) x every cut 0..=len (kinds, padding and next-tag byte rotating); generated: contents up to 300 bytes, random cuts. Oracle: text = bytes before the first NUL inside the declared size if valid UTF-8 (exact offset and length), MissingNul / Utf8 otherwise, never a panic. Non-trivial = terminator only outside the declared size, invalid UTF-8, or interior NUL; distinct by hash(image, kind)",
+            rule: "string tags laid out by hand: [fixed part][content][padding 0x5A|0x00][next tag starting 0x00|0x41], declared size = fixed part + cut. Enumerated: every byte string over {a, NUL, C3, A9, E2, FF} up to length 5 (thorough 6) x every cut 0..=len (kinds, padding and next-tag byte rotating); generated: contents up to 300 bytes (random over that alphabet, or long valid text of 1..4-byte characters + NUL + tail), cuts at/near the end or random. Every tag is read twice: as a single tag, and inside a boot information through the typed getter of the loaded structure and the tag walk. Oracle: text = bytes before the first NUL inside the declared size if valid UTF-8 (exact offset and length), MissingNul / Utf8 otherwise, never a panic. Non-trivial = terminator only outside the declared size, invalid UTF-8, or interior NUL; distinct by hash(image, kind)",
             profiles: Profiles::Both,
             quick: 40000,
             thorough: 3000000,
